@@ -139,7 +139,9 @@ int part_a(Reader& r, bool& nontrivial, std::string& desc) {
         for (int k = 0; k < t->nops; k++) { x = x * 1664525u + 1013904223u; uint8_t b0 = (uint8_t)(x >> 24), b1 = (uint8_t)(x >> 16), b2 = (uint8_t)(x >> 8);
             t->ops[k] = Op{b0, (uint8_t)(b1 % SLOTS), (uint16_t)((b2 & 3) == 0 ? (x & 0x3ff) : (b2 & 0x3f))}; }
     }
-    desc = sfmt("A: %d threads, up to %d ops each", g_nthreads, maxops);
+    int save_restore_pairs = r.below(3) == 1 ? 1 + (int)r.below(2) : 0; bool nested_pair = r.flag();
+    desc = sfmt("A: %d threads, up to %d ops each%s", g_nthreads, maxops, save_restore_pairs ? sfmt(", %d save/restore pair(s) of the overloads first", save_restore_pairs).c_str() : "");
+    if (save_restore_pairs) verif::cls("A:save-restore-pair-in-thread-safe-mode");
     Reporter rep; MemoryLeakDetector* det = new MemoryLeakDetector(&rep); det->enable();
     MemoryLeakWarningPlugin::setGlobalDetector(det, &rep);
     g_locks = 0; g_unlocks = 0; g_contended = 0; g_relock_while_held = 0; g_held = 0; g_owner = 0; g_depth = 0;
@@ -147,6 +149,11 @@ int part_a(Reader& r, bool& nontrivial, std::string& desc) {
     pthread_t th[MAXTHREADS];
     for (int i = 0; i < g_nthreads; i++) pthread_create(&th[i], nullptr, thread_main, &g_threads[i]);
     MemoryLeakWarningPlugin::turnOnThreadSafeNewDeleteOverloads();      // ---- ON window: nothing in the harness allocates until it is closed
+    for (int k = 0; k < save_restore_pairs; k++) {                      // what library code does around its own allocations: the mode must survive it
+        MemoryLeakWarningPlugin::saveAndDisableNewDeleteOverloads();
+        if (nested_pair) { MemoryLeakWarningPlugin::saveAndDisableNewDeleteOverloads(); MemoryLeakWarningPlugin::restoreNewDeleteOverloads(); }
+        MemoryLeakWarningPlugin::restoreNewDeleteOverloads();
+    }
     pthread_barrier_wait(&g_start);
     pthread_barrier_wait(&g_end);
     size_t total = det->totalMemoryLeaks(mem_leak_period_all), checking = det->totalMemoryLeaks(mem_leak_period_checking);
